@@ -510,6 +510,40 @@ def replace_all_calls(text, head, repl, cnt):
         cnt.add("R6.all-calls `%s` => `%s`" % (head, repl))
 
 
+def rewrite_call_through(text, fn_name, via, cnt, where):
+    """R12b: `fn_name(A)(B)` -> `via(fn_name(A), B)`; at least one site must exist"""
+    n_sites = 0
+    pos = 0
+    while True:
+        btoks = lex(text)
+        code = [q for q, t in enumerate(btoks) if t.kind in CODE]
+        hit = None
+        for ci in range(len(code) - 1):
+            t = btoks[code[ci]]
+            if t.start < pos or t.kind != "id" or t.text != fn_name or btoks[code[ci + 1]].text != "(":
+                continue
+            if ci > 0 and btoks[code[ci - 1]].text in (".", "fn"):
+                continue
+            c1 = match_close(btoks, code[ci + 1])
+            nxt = [q for q in code if q > c1]
+            if not nxt or btoks[nxt[0]].text != "(":
+                continue
+            c2 = match_close(btoks, nxt[0])
+            hit = (t.start, btoks[c1].end, btoks[nxt[0]].end, btoks[c2].start, btoks[c2].end); break
+        if hit is None:
+            break
+        (a, b, c, d, e) = hit
+        inner = text[c:d].strip()
+        new = "%s(%s%s%s)" % (via, text[a:b], ", " if inner else "", inner)
+        text = text[:a] + new + text[e:]
+        pos = a + len(via) + 1 + (b - a)
+        n_sites += 1
+        cnt.add("R12b.call-through `%s(..)(..)` => `%s(%s(..), ..)`" % (fn_name, via, fn_name))
+    if n_sites == 0:
+        raise AnchorLost("%s: no call through the value of `%s(..)` found" % (where, fn_name))
+    return text
+
+
 def rewrite_types(text, cnt):
     """R2/R3 on field types: RwLock<T> / Mutex<T> -> T ; AtomicUsize -> usize ; AtomicBool -> bool"""
     toks = lex(text)
@@ -1122,11 +1156,18 @@ class Unit:
         # split block into spec lines and body directives
         spec, edits, rewrites = [], [], list(self.unit_rewrites)
         chains = []
+        call_through = []
         k = 0
         while k < len(block):
             lno, ln = block[k]
             if ln.startswith("//@rewrite") or ln.startswith("//@sig-rewrite") or ln.startswith("//@pre-rewrite"):
                 rewrites.append(_parse_rewrite(ln, self.vc_path, lno - 1)); k += 1; continue
+            if ln.startswith("//@call-through"):
+                # R12b: a call through the function value another call returns, `f(A)(B)`, becomes `g(f(A), B)` - whatever the argument lists are
+                m = re.match(r"//@call-through\s+`(.*?)`\s*=>\s*`(.*?)`\s*$", ln)
+                if not m:
+                    raise AnchorLost("%s:%d: bad //@call-through" % (self.vc_path, lno))
+                call_through.append((m.group(1), m.group(2))); k += 1; continue
             if ln.startswith("//@replace-stmts"):
                 m = re.match(r"//@replace-stmts\s+`(.*?)`\s+x(\d+)\s*=>\s*`(.*)`\s*$", ln)
                 if not m:
@@ -1245,6 +1286,8 @@ class Unit:
                     new_body = apply_literal_rewrite(new_body, frm, to, expect, self.counts, path)
             for (hd, rp) in self.unit_call_repl:
                 new_body = replace_all_calls(new_body, hd, rp, self.counts)
+            for (fnv, via) in call_through:
+                new_body = rewrite_call_through(new_body, fnv, via, self.counts, path)
             for (mth, fnn) in self.unit_method_shims:
                 new_body = rewrite_method_to_fn(new_body, mth, fnn, self.counts)
             chains_done = False
